@@ -214,49 +214,8 @@ ni_harness!(aes128_history, 16 + 16 + 16 * 5 + 1, 70, |inp| {
     Some(y1 == y2)
 });
 
-// ------------------------------------------------------------------ C16 / C19 on the autodetect types
-// Instances are built in place from arbitrary bytes.  Which union arm is live is decided by the process-wide detection
-// result, so each harness first constructs (and forgets) one real instance to run detection with the chosen CPUID answer.
-macro_rules! ni_zeroize {
-    ($name:ident, $ty:ty, $ni_ty:ty, $klen:expr) => {
-        ni_harness!($name, core::mem::size_of::<$ty>() + 1, 5000, |inp| {
-            const S: usize = core::mem::size_of::<$ty>();
-            let ni_arm = inp[S] & 1 == 1;
-            ni_model::set_cpu(ni_arm);
-            core::mem::forget(<$ty>::new(&[0u8; $klen].into()));
-            let mut a = core::mem::MaybeUninit::<$ty>::uninit();
-            generic::fill(&mut a, &inp[..S]);
-            unsafe { core::ptr::drop_in_place(a.as_mut_ptr()) };
-            // live bytes: the whole union when the software arm is live, the intrinsics struct when that arm is live
-            // (the rest of the union is never written by any constructor of that arm)
-            let live = if ni_arm { core::mem::size_of::<$ni_ty>() } else { S };
-            let mut i = 0;
-            while i < live {
-                vcheck!(generic::peek(&a, i) == 0);
-                i += 1;
-            }
-            Some(true)
-        });
-    };
-}
-//@ harness name=aes128_zeroize prop=C16 tier=quick bits=5640 stub=1 est=200 variants=aes:ni+zeroize desc="drop of an arbitrary-state autodetect Aes128 zeroes every byte of the live union arm, whichever arm detection selected (CPUID symbolic)"
-ni_zeroize!(aes128_zeroize, crate::Aes128, crate::ni::Aes128, 16);
-//@ harness name=aes128enc_zeroize prop=C16 tier=quick bits=5640 stub=1 est=200 variants=aes:ni+zeroize desc="drop of an arbitrary-state autodetect Aes128Enc zeroes the live arm (CPUID symbolic)"
-ni_zeroize!(aes128enc_zeroize, crate::Aes128Enc, crate::ni::Aes128Enc, 16);
-//@ harness name=aes128dec_zeroize prop=C16 tier=quick bits=5640 stub=1 est=200 variants=aes:ni+zeroize desc="drop of an arbitrary-state autodetect Aes128Dec zeroes the live arm (CPUID symbolic)"
-ni_zeroize!(aes128dec_zeroize, crate::Aes128Dec, crate::ni::Aes128Dec, 16);
-//@ harness name=aes192_zeroize prop=C16 tier=quick bits=6664 stub=1 est=200 variants=aes:ni+zeroize desc="drop of an arbitrary-state autodetect Aes192 zeroes the live arm (CPUID symbolic)"
-ni_zeroize!(aes192_zeroize, crate::Aes192, crate::ni::Aes192, 24);
-//@ harness name=aes192enc_zeroize prop=C16 tier=quick bits=6664 stub=1 est=200 variants=aes:ni+zeroize desc="drop of an arbitrary-state autodetect Aes192Enc zeroes the live arm"
-ni_zeroize!(aes192enc_zeroize, crate::Aes192Enc, crate::ni::Aes192Enc, 24);
-//@ harness name=aes192dec_zeroize prop=C16 tier=quick bits=6664 stub=1 est=200 variants=aes:ni+zeroize desc="drop of an arbitrary-state autodetect Aes192Dec zeroes the live arm"
-ni_zeroize!(aes192dec_zeroize, crate::Aes192Dec, crate::ni::Aes192Dec, 24);
-//@ harness name=aes256_zeroize prop=C16 tier=quick bits=7688 stub=1 est=200 variants=aes:ni+zeroize desc="drop of an arbitrary-state autodetect Aes256 zeroes the live arm (CPUID symbolic)"
-ni_zeroize!(aes256_zeroize, crate::Aes256, crate::ni::Aes256, 32);
-//@ harness name=aes256enc_zeroize prop=C16 tier=quick bits=7688 stub=1 est=200 variants=aes:ni+zeroize desc="drop of an arbitrary-state autodetect Aes256Enc zeroes the live arm"
-ni_zeroize!(aes256enc_zeroize, crate::Aes256Enc, crate::ni::Aes256Enc, 32);
-//@ harness name=aes256dec_zeroize prop=C16 tier=quick bits=7688 stub=1 est=200 variants=aes:ni+zeroize desc="drop of an arbitrary-state autodetect Aes256Dec zeroes the live arm"
-ni_zeroize!(aes256dec_zeroize, crate::Aes256Dec, crate::ni::Aes256Dec, 32);
+// ------------------------------------------------------------------ C19 on the autodetect types
+// (C16 for these types lives in auto_inner.rs, an inner module of crate::autodetect that can run CPU detection directly)
 
 //@ harness name=aes128_debug prop=C19 tier=quick bits=5632 est=40 variants=aes:ni desc="Debug of an arbitrary-state Aes128 equals Debug of the zero instance and starts with Aes128"
 g_debug!(aes128_debug, crate::Aes128, "Aes128", generic::always);
